@@ -19,6 +19,11 @@ func main() {
 	flag.Parse()
 	_ = logger.Init(logger.Logging{Env: "prod", Level: "fatal"})
 	res := vlib.NewResult()
+	if *mode == "segstress" {
+		runSegStress(*cfg, res)
+		res.Write(*out)
+		os.Exit(0)
+	}
 	bs, err := vlib.ReadBehaviours(*in)
 	if err != nil {
 		res.Inconclusive = append(res.Inconclusive, err.Error())
